@@ -46,8 +46,9 @@ def fwd (p : Parsed R) (lon lat : R) : R × R :=
   let a := ellps.a
   let k0 := Parsed.k p 0
   let lon0 := Scalar.toRadians (Parsed.lon p 0)
+  let isometric0 := ellps.latitudeGeographicToIsometric (Scalar.toRadians (Parsed.lat p 0))
   let easting := (lon - lon0) * k0 * a + Parsed.x p 0
-  let isometric := ellps.latitudeGeographicToIsometric (lat + Parsed.lat p 0)
+  let isometric := ellps.latitudeGeographicToIsometric lat - isometric0
   (easting, a * k0 * isometric + Parsed.y p 0)
 
 def inv (p : Parsed R) (x y : R) : R × R :=
@@ -55,11 +56,12 @@ def inv (p : Parsed R) (x y : R) : R × R :=
   let a := ellps.a
   let k0 := Parsed.k p 0
   let lon0 := Scalar.toRadians (Parsed.lon p 0)
+  let isometric0 := ellps.latitudeGeographicToIsometric (Scalar.toRadians (Parsed.lat p 0))
   let x := x - Parsed.x p 0
   let lon := x / (a * k0) + lon0
   let y := y - Parsed.y p 0
-  let psi := y / (a * k0)
-  (lon, ellps.latitudeIsometricToGeographic psi - Parsed.lat p 0)
+  let psi := y / (a * k0) + isometric0
+  (lon, ellps.latitudeIsometricToGeographic psi)
 
 def sem (p : Parsed R) (dir : Dir) (data : List (Coor R)) : List (Coor R) × Nat :=
   match dir with
